@@ -74,6 +74,9 @@ else:
 res['checks'] = checks
 res['detected'] = any(isinstance(v, dict) and v.get('rc') == 1 for v in checks.values())
 meta = json.load(open(os.path.join(dst, 'meta.json')))
+# the verdict of the checks as they stood when the seed was first run is kept for the record
+if 'first_shot' not in meta:
+    meta['first_shot'] = {'detected': res.get('detected'), 'checks': {k: (v.get('rc') if isinstance(v, dict) else v) for k, v in res.get('checks', {}).items()}}
 meta['verif'] = res
 json.dump(meta, open(os.path.join(dst, 'meta.json'), 'w'), indent=1)
 print(name, 'confirmed=%s detected=%s' % (res['confirmed'], res['detected']))
